@@ -76,6 +76,19 @@ def samplingRun : Sampling → List Ev → List Perf
     let (s', w, _) := samplingStep s e
     (match w with | some p => [p] | none => []) ++ samplingRun s' es
 
+/-- `NewRandomSamplingCollector`, `NewIntervalCollector`: the totals always accumulate and the running total is
+written when a gate opens - a pseudo-random draw, or "the interval has elapsed".  The outcome of the gate at each
+non-nil event is a parameter (`gates`, `false` once the list is used up), so a statement for all `gates` is a statement
+for every outcome of the random generator and every timing. -/
+def gatedRun : Option Perf → List Bool → List Ev → List Perf
+  | _, _, [] => []
+  | cur, gs, none :: es => gatedRun cur gs es
+  | cur, gs, some ev :: es =>
+    let c' := match cur with
+      | none => ev
+      | some c => c.add ev
+    (if gs.headD false then [c'] else []) ++ gatedRun (some c') gs.tail es
+
 /-! ### MarshalDocument / UnmarshalDocument -/
 
 def k_counters : Bytes := [99, 111, 117, 110, 116, 101, 114, 115]   -- "counters"
